@@ -34,6 +34,11 @@ function p.mw_global(frame) return bump(mw, "zz") end
 function p.mw_require(frame) return bump(require("mw"), "zz") end
 function p.mw_text(frame) return bump(mw.text, "zz") end
 function p.mw_ustring(frame) return bump(mw.ustring, "zz") end
+function p.mw_site(frame) return bump(mw.site, "zz") end
+function p.mw_title(frame) return bump(mw.title, "zz") end
+function p.mw_language(frame) return bump(mw.language, "zz") end
+function p.mw_html(frame) return bump(mw.html, "zz") end
+function p.mw_hash(frame) return bump(mw.hash, "zz") end
 function p.package_loaded(frame) return bump(package.loaded, "zz") end
 function p.loaddata(frame)
   local d = mw.loadData("Module:cdata")
@@ -58,6 +63,15 @@ end
 function p.stripmarkers(frame)
   return frame:extensionTag('nowiki', 'x') .. frame:preprocess('==zz==')
     .. frame:extensionTag{name = 'nowiki', content = 'y'}
+end
+function p.headings(frame)
+  -- heading strip markers are numbered per page in order of first use
+  local out = {}
+  for i, v in ipairs(frame.args) do
+    out[#out + 1] = frame:preprocess("==" .. v .. "==")
+  end
+  out[#out + 1] = frame:extensionTag("nowiki", "n")
+  return table.concat(out, "/")
 end
 function p.strdelete(frame)
   -- reads first, then DELETES members of the shared string library
@@ -100,7 +114,8 @@ CHANNELS = {
     "mw_text": "nil", "mw_ustring": "nil", "package_loaded": "nil",
     "loaddata": "nil", "loadjson": "0", "retained": "1", "required": "1", "redefine": "XY",
     "gfunc": "nil", "strdelete": "truecba2", "envpush": "nil",
-    "envpush2": "nil",
+    "envpush2": "nil", "mw_site": "nil", "mw_title": "nil",
+    "mw_language": "nil", "mw_html": "nil", "mw_hash": "nil",
 }
 
 TEMPLATES = {
@@ -132,6 +147,9 @@ FIXED_PAGES = [
     "{|\n|+ cap\n! h\n|-\n| {{ta|cell}}\n|}",
     "__NOTOC__ ''i'' '''b''' [http://x.org t] <!-- c -->",
     "{{#invoke:mut|stripmarkers}} {{#invoke:mut|stripmarkers}}",
+    "{{#invoke:mut|headings|Etymology|Noun|Verb}}",
+    "{{#invoke:mut|headings|Verb|Adjective}} {{#invoke:mut|headings|Noun}}",
+    "{{#invoke:mut|headings|zz|Adjective|Etymology|Verb}}",
     "{{ta|{{tb|{{ta|deep}}}}}} [[L|{{ta|in link}}]] {{{1|{{ta|dflt}}}}}",
 ]
 
